@@ -284,6 +284,32 @@ def s3b(repo, res):
     res.require(n >= 3, f"S3b: only {n} documented relational constraints found")
 
 
+def s8(repo, res):
+    """type gate: every input validator decides on the *type* of the value before converting it - an isinstance test, is_array_like,
+    or delegation to a validator that has one.  Duck typing (`float(x)` in a try block) accepts numeric strings etc."""
+    ic = repo.mod("magpylib._src.input_checks")
+    gates = {}
+    for fname, fn in ic.funcs.items():
+        if not fname.startswith("check_format_input"):
+            continue
+        gate = []
+        for c in ast.walk(fn):
+            if isinstance(c, ast.Call):
+                nm = call_name(c)
+                if nm == "isinstance" or nm == "is_array_like" or (nm or "").startswith("check_format_input") and nm != fname:
+                    gate.append(nm)
+        if any(isinstance(c, ast.Compare) and isinstance(c.ops[0], (ast.In, ast.NotIn)) for c in ast.walk(fn)):
+            gate.append("membership test")
+        gates[fname] = gate
+    for fname, gate in gates.items():
+        ok = bool(gate)
+        res.ob(f"S8:{fname}", ok, {"rule": "S8", "validator": fname, "type_gates": sorted(set(gate))})
+        if not ok:
+            res.add(Finding("S8", ic.rel, fname, "no type gate", "the validator converts its input without testing its type first (duck typing): values of the "
+                            "wrong type that happen to convert (numeric strings, bytes) are accepted and stored", ic.funcs[fname].lineno))
+    res.require(len(gates) >= 10, "S8: validators vanished")
+
+
 # ------------------------------------------------------------------------------------------------ S4
 CONSTRAINT_PARAMS = {"dims", "shape_m1", "length", "forbid_negative0", "forbid_negative", "reshape", "shape", "allow_None", "init_format",
                      "allow", "recursive", "typechecks"}
@@ -648,6 +674,7 @@ def run(repo, res, tier):
     s1_s6(repo, res)
     s3(repo, res)
     s3b(repo, res)
+    s8(repo, res)
     s4(repo, res)
     none_flow(repo, res)
     extra = {}
